@@ -334,9 +334,8 @@ func (e *kvElection) verifyLeadershipAfterReconnect() {
 }
 
 func (e *kvElection) handleReconnectVerificationFailed(err error) {
-	e.mu.Lock()
-	defer e.mu.Unlock()
-
+	// e.mu must not be held here: becomeFollower acquires it, and sync.RWMutex is
+	// not reentrant.
 	if e.isLeader.Load() {
 		log := e.getLogger()
 		log.Error("demoting_due_to_reconnect_verification_failure",
